@@ -158,3 +158,92 @@ func checkCronRace(res *lib.Result, rng *lib.Rand, budget int) {
 		}
 	}
 }
+
+// ---- descriptors with different time zones ----
+//
+// Every caller parsing `@daily`, `@hourly`, … with its own TZ=/CRON_TZ= prefix must get a schedule
+// of its own: the schedules are USED only after all parses have completed (sequentially, then from
+// concurrent goroutines) and each one's activations are compared with those of the same spec
+// parsed alone.  finding id: cron-descriptor-shared-schedule.
+
+const findCronDesc = "cron-descriptor-shared-schedule"
+
+type cronDescCase struct {
+	Kind       string   `json:"kind"` // cron-desc
+	Specs      []string `json:"specs"`
+	Concurrent bool     `json:"concurrent"`
+}
+
+var descNames = []string{"@daily", "@hourly", "@weekly", "@monthly", "@yearly", "@annually", "@midnight", "@every 90m"}
+var descZones = []string{"Asia/Tokyo", "America/New_York", "Europe/Berlin", "Australia/Sydney", "UTC", "Asia/Kolkata", "Pacific/Honolulu"}
+
+func runCronDesc(c cronDescCase) string {
+	solo := make([]string, len(c.Specs))
+	for i, s := range c.Specs {
+		solo[i] = cronResult(cron.ParseStandard(s))
+	}
+	scheds := make([]cron.Schedule, len(c.Specs))
+	errs := make([]error, len(c.Specs))
+	if c.Concurrent {
+		var wg sync.WaitGroup
+		for i := range c.Specs {
+			wg.Add(1)
+			go func(i int) {
+				defer wg.Done()
+				defer func() { _ = recover() }()
+				scheds[i], errs[i] = cron.ParseStandard(c.Specs[i])
+			}(i)
+		}
+		wg.Wait()
+	} else {
+		for i, s := range c.Specs {
+			scheds[i], errs[i] = cron.ParseStandard(s)
+		}
+	}
+	// all parses are over: now every caller uses its schedule
+	for i := range c.Specs {
+		got := cronResult(scheds[i], errs[i])
+		if got != solo[i] {
+			return fmt.Sprintf("ParseStandard(%q) (parse %d of %d, used after all parses completed): alone %q, now %q", c.Specs[i], i+1, len(c.Specs), solo[i], got)
+		}
+	}
+	return ""
+}
+
+func checkCronDescriptors(res *lib.Result, rng *lib.Rand, budget int) {
+	cases := []cronDescCase{
+		{"cron-desc", []string{"CRON_TZ=Asia/Tokyo @daily", "CRON_TZ=America/New_York @daily"}, false},
+		{"cron-desc", []string{"TZ=Europe/Berlin @hourly", "@hourly", "TZ=Asia/Kolkata @hourly"}, false},
+	}
+	for i := 0; i < 40*budget; i++ {
+		n := rng.Range(2, 5)
+		d := descNames[rng.Intn(len(descNames))]
+		specs := make([]string, n)
+		for k := range specs {
+			if rng.Intn(3) == 0 {
+				d = descNames[rng.Intn(len(descNames))]
+			}
+			pre := []string{"CRON_TZ=", "TZ="}[rng.Intn(2)] + descZones[rng.Intn(len(descZones))] + " "
+			if rng.Intn(6) == 0 {
+				pre = ""
+			}
+			specs[k] = pre + d
+		}
+		cases = append(cases, cronDescCase{"cron-desc", specs, i%2 == 1})
+	}
+	for _, c := range cases {
+		var complaint string
+		g := wl.Guard(30*time.Second, func() string { complaint = runCronDesc(c); return "ok" })
+		distinct := map[string]bool{}
+		for _, s := range c.Specs {
+			distinct[s] = true
+		}
+		res.Count("cron-desc:"+strings.Join(c.Specs, "|")+fmt.Sprint(c.Concurrent), len(distinct) >= 2)
+		res.Hit(fmt.Sprintf("cron-desc:concurrent=%v", c.Concurrent))
+		if g != "ok" {
+			res.Violate(findCronDesc, "descriptor parses: "+g, c)
+		} else if complaint != "" {
+			res.Violate(findCronDesc, complaint, c)
+		}
+	}
+}
